@@ -114,6 +114,55 @@ theorem collectArgs_eop_len (adv : Bool) : ∀ (fuel : Nat) (top : Helper) (rest
             · exact Nat.le_trans (ih _ _ _ _ _ _ _ _ _ h) hl
           · exact Nat.le_trans (ih _ _ _ _ _ _ _ _ _ h) hl
 
+-- the same two facts for the collection loop of a variadic call
+theorem collectArgsV_ok_len (adv : Bool) (k : Nat) : ∀ (fuel : Nat) (top : Helper) (rest : List Helper) (ne : NoExp) (args : List (List Tok)) (cur : List Tok) (depth : Nat)
+    (a : List (List Tok)) (t : Helper) (r : List Helper) (n : NoExp),
+    collectArgsV adv k fuel top rest ne args cur depth = .ok a t r n → r.length ≤ rest.length := by
+  intro fuel
+  induction fuel with
+  | zero => intro top rest ne args cur depth a t r n h; simp [collectArgsV] at h
+  | succ f ih =>
+    intro top rest ne args cur depth a t r n h
+    unfold collectArgsV at h
+    split at h
+    · cases h
+    · cases h
+    · rename_i tok top' rest' ne' hc
+      have hl := consume_ok_len adv _ _ _ _ _ _ _ hc
+      split at h
+      · exact Nat.le_trans (ih _ _ _ _ _ _ _ _ _ _ h) hl
+      · split at h
+        · exact Nat.le_trans (ih _ _ _ _ _ _ _ _ _ _ h) hl
+        · split at h
+          · split at h
+            · cases h; exact hl
+            · exact Nat.le_trans (ih _ _ _ _ _ _ _ _ _ _ h) hl
+          · exact Nat.le_trans (ih _ _ _ _ _ _ _ _ _ _ h) hl
+
+theorem collectArgsV_eop_len (adv : Bool) (k : Nat) : ∀ (fuel : Nat) (top : Helper) (rest : List Helper) (ne : NoExp) (args : List (List Tok)) (cur : List Tok) (depth : Nat)
+    (t : Helper) (r : List Helper) (n : NoExp),
+    collectArgsV adv k fuel top rest ne args cur depth = .eop t r n → r.length ≤ rest.length := by
+  intro fuel
+  induction fuel with
+  | zero => intro top rest ne args cur depth t r n h; simp [collectArgsV] at h
+  | succ f ih =>
+    intro top rest ne args cur depth t r n h
+    unfold collectArgsV at h
+    split at h
+    · cases h; rename_i hc; exact consume_eop_len adv _ _ _ _ _ _ hc
+    · cases h
+    · rename_i tok top' rest' ne' hc
+      have hl := consume_ok_len adv _ _ _ _ _ _ _ hc
+      split at h
+      · exact Nat.le_trans (ih _ _ _ _ _ _ _ _ _ h) hl
+      · split at h
+        · exact Nat.le_trans (ih _ _ _ _ _ _ _ _ _ h) hl
+        · split at h
+          · split at h
+            · cases h
+            · exact Nat.le_trans (ih _ _ _ _ _ _ _ _ _ h) hl
+          · exact Nat.le_trans (ih _ _ _ _ _ _ _ _ _ h) hl
+
 theorem processArgs_inv (c : Cfg) (pw : Bool) (m : Macro) : ∀ (todo : List (List Tok)) (done : List Arg) (s s' : MS),
     s.stack.length ≤ c.lim → processArgs c pw m todo done s = .cont s' → s'.stack.length ≤ c.lim := by
   intro todo
@@ -201,11 +250,17 @@ theorem stepCall_inv (c : Cfg) (s : MS) (top : Helper) (rest : List Helper) (t :
       split at h
       · rename_i t0 r n hc
         cases h
-        have := collectArgs_eop_len _ _ _ _ _ _ _ _ _ _ _ hc
+        have : r.length ≤ rest1.length := by
+          split at hc
+          · exact collectArgsV_eop_len _ _ _ _ _ _ _ _ _ _ _ _ hc
+          · exact collectArgs_eop_len _ _ _ _ _ _ _ _ _ _ _ hc
         simp only [eopState]; omega
       · cases h
       · rename_i args top2 rest2 ne2 hc2
-        have h2 := collectArgs_ok_len _ _ _ _ _ _ _ _ _ _ _ _ hc2
+        have h2 : rest2.length ≤ rest1.length := by
+          split at hc2
+          · exact collectArgsV_ok_len _ _ _ _ _ _ _ _ _ _ _ _ _ hc2
+          · exact collectArgs_ok_len _ _ _ _ _ _ _ _ _ _ _ _ hc2
         refine processArgs_inv c _ _ _ _ _ _ ?_ h
         simp only [List.length_cons]; omega
 
